@@ -179,9 +179,9 @@ def run_multi(case):
                 k = o[0]
                 u = e.get_children(ordered=False)
                 if k == 'a':
-                    c = make(o[1]); c._vid = i; e.add_child(c)
+                    c = make(o[1]); c._vid = i; c.xsd_check = not case.get('unchecked_children', False); e.add_child(c)
                 elif k == 'w':
-                    c = make(o[1]); c._vid = i; e.add_child(c, forward=o[2])
+                    c = make(o[1]); c._vid = i; c.xsd_check = not case.get('unchecked_children', False); e.add_child(c, forward=o[2])
                 elif k == 'r':
                     if o[1] < len(u):
                         e.remove(u[o[1]])
